@@ -239,9 +239,20 @@ func runTok(which string) func(in sx.SX) (sx.SX, string) {
 				}
 				break
 			}
+			rawPos := map[int][2]int{} // offset of a token of the option-free stream -> its line and column
+			ro := 0
+			for _, r := range raw {
+				rawPos[ro] = [2]int{r.Line(), r.Column()}
+				ro += len([]rune(r.Value()))
+			}
 			for i := range want {
 				if which == "C15" && (want[i].typ != got[i].Type() || want[i].value != got[i].Value()) {
 					fail = fmt.Sprintf("token %d is (%d,%s), the option-free stream post-processed by the options has (%d,%s)", i, got[i].Type(), sx.Quote(got[i].Value()), want[i].typ, sx.Quote(want[i].value))
+					break
+				}
+				// a token that is kept or rewritten stays where the option-free stream has it
+				if rp, ok := rawPos[want[i].offset]; which == "C15" && ok && (rp[0] != got[i].Line() || rp[1] != got[i].Column()) {
+					fail = fmt.Sprintf("token %d %s is reported at line %d column %d, the option-free stream has the token at that offset at line %d column %d", i, sx.Quote(got[i].Value()), got[i].Line(), got[i].Column(), rp[0], rp[1])
 					break
 				}
 				if which == "C12" {
